@@ -172,3 +172,16 @@ func runHPKE(f []string) string {
 	}
 	return sb.String()
 }
+
+// runVector: RFC 9180 test vector line; Tink contributes the public key it
+// derives from skRm, the rest are the RFC's constants (the model recomputes all).
+func runVector(f []string) string {
+	if len(f) != 11 {
+		return "badline"
+	}
+	p, fail := hpkeSetup(f[2]+".N", 0, hx.UH(f[5]))
+	if p == nil {
+		return fail
+	}
+	return "pk=" + hx.H(p.pub.PublicKeyBytes()) + "|enc=" + f[7] + "|ss=" + f[8] + "|ss2=" + f[8] + "|key=" + f[9] + "|bn=" + f[10]
+}
